@@ -191,6 +191,9 @@ class LogarithmicUnitType(UnitType):
     def _convert_B_B(self, value, exp=0):
         return value + exp
         
+    def _convert_Np_Np(self, value):
+        return value
+        
     def _convert_B_Np(self, value):
         return 1.151277918*value
         
